@@ -225,7 +225,7 @@ PROPS["C15"] = pbt(
     level_note="empty items (a;;b) and values other than 0/1 are undocumented either way and not generated",
     quick={"cases": 800000},
     thorough={"cases": 8000000, "fuzz_runs": 800000, "fuzz_jobs": 8},
-    floors={"key_with_3plus_definitions|sub_join": 0.20, "reset_in_the_middle|sub_join": 0.10,
+    floors={"key_with_3plus_definitions|sub_join": 0.15, "reset_in_the_middle|sub_join": 0.07,
             "indented_line_with_delimiter|sub_python": 0.20, "repeated_item|sub_options": 0.20,
             "unknown_item|sub_options": 0.20},
 )
